@@ -407,6 +407,14 @@ def worker(args):
 
 def owns(owners, oracle):
     """owners: list of oracle names / prefixes owned by the checked property"""
+    if oracle.startswith('probe.'):
+        # a library exception that escaped from a probe (no more specific
+        # oracle caught it): the probe's property owns it, e.g.
+        # 'probe.c16_export.raised' belongs to the owner of 'c16'
+        name = oracle.split('.')[1]
+        for o in owners:
+            if name == o or name.startswith(o + '_'):
+                return True
     for o in owners:
         if o.startswith('*'):
             if oracle.endswith(o[1:]):
